@@ -2,7 +2,7 @@
    input_types.py InputTypesGenerator (_parse_input_definition, class order, model_rebuild calls,
    enum imports).  Executable definitions only. *)
 From Coq Require Import List String Ascii ZArith Bool.
-From AC Require Import Base.Sexp Base.Strs Gql.InSchema Model.Names Model.Defaults.
+From AC Require Import Base.Sexp Base.Json Base.Strs Gql.InSchema Model.Names Model.Defaults.
 Import ListNotations.
 Local Open Scope string_scope.
 
@@ -113,6 +113,37 @@ Fixpoint names_ok_fields (snake : bool) (fs : list ifdef) : bool :=
                         && negb (i_name f =? i_name g)) r
       && names_ok_fields snake r
   end.
+
+(* ---- construction by Python field name: the same value keyed by the generated field names ---- *)
+Fixpoint find_field (k : string) (fs : list ifdef) : option ifdef :=
+  match fs with
+  | [] => None
+  | f :: r => if String.eqb k (i_name f) then Some f else find_field k r
+  end.
+
+Definition rename_entry (ren : gtype -> json -> json) (snake : bool) (fs : list ifdef) (p : string * json)
+  : string * json :=
+  match find_field (fst p) fs with
+  | Some g => (py_name snake (i_name g), ren (i_type g) (snd p))
+  | None => p
+  end.
+
+(* the value a user writes when passing keyword arguments / dicts keyed by Python names *)
+Fixpoint rename (n : nat) (s : schema) (snake : bool) : gtype -> json -> json :=
+  fix go (t : gtype) (j : json) {struct t} : json :=
+    match t with
+    | TNonNull t' => go t' j
+    | TList t' =>
+        match j, n with
+        | JArr l, S n' => JArr (map (rename n' s snake t') l)
+        | _, _ => j
+        end
+    | TNamed nm =>
+        match kind_of s nm, j, n with
+        | KInput fs, JObj kv, S n' => JObj (map (rename_entry (rename n' s snake) snake fs) kv)
+        | _, _, _ => j
+        end
+    end.
 
 (* ---- S-expression output ---- *)
 Fixpoint ann_to_sexp (a : ann) : sexp :=
